@@ -18,7 +18,7 @@ import (
 func init() {
 	simkit.Register(&simkit.Property{
 		ID: "C03", Level: "exploration", Bubble: true, Run: runC03,
-		Rule: "World C: n in {3,4,5} real keyper message stacks (p2p registries, validators, handlers, KeyShareHandler, pgx/sqlc on pgsim) with a trusted-dealer eon; m>=t keypers are triggered through the real trigger channel for 1-3 identities; every database round trip, every gossip delivery (per message x receiver latency and order, net.dup, net.drop of at most m-t share messages per receiver) is a scheduler choice. Oracles: every message published by an honest node is accepted by its own and every honest peer's real validator chain; at quiescence every node stores the reference epoch key for every identity. In 25% of the runs one node is partitioned from (some of) the others and the partition heals after 20-600 ms. Non-trivial = a run with at least one delivery reordered relative to send order and at least one loss or duplicate; distinct = distinct trace hashes among those.",
+		Rule: "World C: n in {3,4,5} real keyper message stacks (p2p registries, validators, handlers, KeyShareHandler, pgx/sqlc on pgsim) with a trusted-dealer eon; m>=t keypers are triggered through the real trigger channel for 1-3 identities; every database round trip, every gossip delivery (per message x receiver latency and order, net.dup, net.drop of at most m-t share messages per receiver) is a scheduler choice. Oracles: every message published by an honest node is accepted by its own and every honest peer's real validator chain; at quiescence every node stores the reference epoch key for every identity. In 25% of the runs with t>=2 a failed first round precedes (only t-1 keypers triggered, for the previous slot / a subset of the identities), so that the real round re-requests identities for which shares already exist. In 25% of the runs one node is partitioned from (some of) the others and the partition heals after 20-600 ms. Non-trivial = a run with at least one delivery reordered relative to send order and at least one loss or duplicate; distinct = distinct trace hashes among those.",
 		Assumptions: []string{"gossipsub's contract as modelled by simnet (local validation on publish, validation before delivery, no self-delivery)", "pgsim implements the PostgreSQL semantics the queries rely on (conformance run against the repository's own DB tests)"},
 		Real:        []string{"p2p.P2PMessaging (validators, handlers, SendMessage)", "epochkghandler (KeyShareHandler, DecryptionKeyShareHandler, DecryptionKeyHandler)", "epochkg", "keyper/database sqlc queries", "pgx/pgxpool", "medley/db.InitDB"},
 		Stub:        []string{"libp2p host/gossipsub (simnet)", "PostgreSQL server (pgsim)", "DKG (trusted dealer eon keys)"},
@@ -47,6 +47,7 @@ func runC03(r *simkit.Run) {
 		w.addNode(fmt.Sprintf("k%d", i), i, dkgSuccess, nil)
 	}
 	if w.fl == flGnosis {
+		w.accessReannounce = c.Chance(300, "access-keyper-set-reannounced")
 		w.addAccessNode("access")
 	}
 	// only share messages may be lost (the statement's loss budget)
@@ -65,6 +66,14 @@ func runC03(r *simkit.Run) {
 	}
 	var ids [][]byte
 	slot := uint64(100 + c.Intn(5, "slot"))
+	// a failed first round: only t-1 keypers are triggered (for a subset of the identities /
+	// the previous slot), nothing can be released; the real round then re-requests the same
+	// transactions' identities and needs exactly those keypers' shares again
+	preRound := t >= 2 && c.Chance(250, "failed-first-round")
+	slot0 := slot
+	if preRound {
+		slot++
+	}
 	if w.fl == flGnosis {
 		// identities come out of the flavour's own selection from the synced queue
 		var txs []gnosisTx
@@ -93,6 +102,26 @@ func runC03(r *simkit.Run) {
 	r.Probe("flavour-" + w.fl.String())
 	w.gate()
 	perm := c.Perm(n, "who-is-triggered")
+	if preRound && (w.fl == flGnosis || len(ids) > 1) {
+		drop := w.net.Cfg.DropPermille
+		w.net.Cfg.DropPermille = 0
+		for _, i := range perm[:t-1] {
+			if w.fl == flGnosis {
+				w.triggerGnosisSlot(w.nodes[i], slot0, 8)
+			} else {
+				w.triggerNode(w.nodes[i], 10, ids[:len(ids)-1])
+			}
+		}
+		if !w.run(20000) {
+			r.Fail("no-quiescence", "steps", "the failed first round did not become quiescent")
+		}
+		if r.Failed() {
+			r.Fail("", "", "")
+		}
+		w.net.Cfg.DropPermille = drop
+		r.Probe("failed-first-round")
+		r.Eventf("first round with %d < t keypers done", t-1)
+	}
 	for _, i := range perm[:m] {
 		if w.fl == flGnosis {
 			w.triggerGnosisSlot(w.nodes[i], slot, 8)
